@@ -288,6 +288,7 @@ fn generic_sqrt(ctx: &Ctx, rec: &mut Rec) {
             let zoo = field_zoo(fld);
             rec.declare_form(concat!($name, "::sqrt"));
             rec.declare_form(concat!($name, "::legendre"));
+            rec.declare_form(concat!($name, "::sqrt_in_place"));
             par(rec, |w, n, rec| {
                 let mut rng = rng_for(ctx.seed, P, w, 3);
                 let mut vals: Vec<B> = zoo.iter().map(|z| z.0.clone()).collect();
@@ -306,6 +307,21 @@ fn generic_sqrt(ctx: &Ctx, rec: &mut Rec) {
                     rec.form(concat!($name, "::sqrt"));
                     rec.form(concat!($name, "::legendre"));
                     rec.eval(&($name, v.to_bytes_le()), v == &b(0));
+                    // in-place variant: Some => the receiver holds a root; None => the receiver is unchanged
+                    // ("sets self to the square root of self, if it exists")
+                    rec.form(concat!($name, "::sqrt_in_place"));
+                    match guarded(|| { let mut x = lv; let some = x.sqrt_in_place().is_some(); (some, $from(&x)) }) {
+                        Err(pn) => rec.violation(format!("{P}:{}::sqrt_in_place:panic", $name), pn, json!({"v": hexs(v)})),
+                        Ok((some, after)) => {
+                            if some != (leg >= 0) {
+                                rec.violation(format!("{P}:{}::sqrt_in_place:verdict", $name), format!("sqrt_in_place returned {} but Euler says {leg}", if some { "Some" } else { "None" }), json!({"v": hexs(v)}));
+                            } else if some && fld.sq(&after) != *v {
+                                rec.violation(format!("{P}:{}::sqrt_in_place:wrong-root", $name), "sqrt_in_place left a non-root in the receiver", json!({"v": hexs(v), "after": hexs(&after)}));
+                            } else if !some && &after != v {
+                                rec.violation(format!("{P}:{}::sqrt_in_place:receiver-clobbered", $name), "sqrt_in_place returned None (no root exists) but changed the receiver", json!({"v": hexs(v), "after": hexs(&after)}));
+                            }
+                        }
+                    }
                     match guarded(|| (lv.sqrt().map(|y| $from(&y)), lv.legendre())) {
                         Err(pn) => rec.violation(format!("{P}:{}::sqrt:panic", $name), pn, json!({"v": hexs(v)})),
                         Ok((root, l)) => {
